@@ -96,11 +96,11 @@ M = [
  ("repetition-board-passes-other-turn", "src/board/mod.rs", "        self.position_info.count_current_position(self.turn)", "        self.position_info.count_current_position(self.turn.opposite())", "violation", ["C17"]),
  ("benign-repetition-get-copied", "src/board/position_info.rs", "        let count = *self.position_count.get(&key).unwrap();\n        self.max_seen_position_count_stack.push(count);\n        count", "        let count = *self.position_count.get(&key).unwrap();\n        let reported = count;\n        self.max_seen_position_count_stack.push(reported);\n        reported", "ok", ["C17"]),
  ("game-forgets-history", "src/game/game.rs", "            Ok(_capture) => {\n                self.save_move(chess_move.clone());\n                Ok(())", "            Ok(_capture) => {\n                Ok(())", "violation", ["C17"]),
- ("annotate-forgets-undo", "src/move_generator/mod.rs", "            ChessMoveEffect::None\n        };\n        chess_move.undo(board).unwrap();\n", "            ChessMoveEffect::None\n        };\n", "violation", ["C06"]),
+ ("annotate-forgets-undo", "src/move_generator/mod.rs", "            ChessMoveEffect::None\n        };\n        chess_move.undo(board).unwrap();\n", "            ChessMoveEffect::None\n        };\n", "undecided", ["C06"]),   # Z3 runs into the resource limit instead of refuting: exit 2
  # ---- the Game API (C14 coordinate pairs, C15 engine move)
  ("game-find-ignores-to-square", "src/game/game.rs", "            .find(|m| m.from_square() == from_square && m.to_square() == to_square)\n            .ok_or(GameError::InvalidMove)?;\n        self.apply_chess_move(chess_move.clone())?;", "            .find(|m| m.from_square() == from_square)\n            .ok_or(GameError::InvalidMove)?;\n        self.apply_chess_move(chess_move.clone())?;", "violation", ["C14"]),
  ("game-coordinates-not-recorded", "src/game/game.rs", "            Ok(_capture) => {\n                self.save_move(chess_move.clone());\n                Ok(())", "            Ok(_capture) => {\n                Ok(())", "violation", ["C14"]),
- ("game-rejection-toggles-turn", "src/game/game.rs", "            .ok_or(GameError::InvalidMove)?;\n        self.apply_chess_move(chess_move.clone())?;\n        Ok(chess_move.clone())", "            .ok_or_else(|| GameError::InvalidMove);\n        let chess_move = match chess_move { Ok(m) => m, Err(e) => { self.board.toggle_turn(); return Err(e); } };\n        self.apply_chess_move(chess_move.clone())?;\n        Ok(chess_move.clone())", "undecided", ["C14"]),
+ ("game-rejection-toggles-turn", "src/game/game.rs", "            .ok_or(GameError::InvalidMove)?;\n        self.apply_chess_move(chess_move.clone())?;\n        Ok(chess_move.clone())", "            .ok_or_else(|| GameError::InvalidMove);\n        let chess_move = match chess_move { Ok(m) => m, Err(e) => { self.board.toggle_turn(); return Err(e); } };\n        self.apply_chess_move(chess_move.clone())?;\n        Ok(chess_move.clone())", "violation", ["C14"]),
  ("game-applies-for-other-side", "src/game/game.rs", "        let turn = self.board.turn();\n        let candidates = self.move_generator.generate_moves(&mut self.board, turn);", "        let turn = self.board.turn().opposite();\n        let candidates = self.move_generator.generate_moves(&mut self.board, turn);", "violation", ["C14"]),
  ("engine-book-miss-is-error", "src/game/game.rs", "            None => self.select_alpha_beta_best_move(),", "            None => return Err(GameError::InvalidMove),", "violation", ["C15"]),
  ("engine-book-takes-first-candidate", "src/game/game.rs", "        match maybe_chess_move {\n            Some(result) => Ok(result.clone()),", "        match maybe_chess_move {\n            Some(_result) => Ok(candidates[0].clone()),", "ok", ["C15"]),
@@ -121,6 +121,14 @@ M = [
  ("benign-search-strict-cutoff", "src/alpha_beta_searcher/mod.rs", "            beta = min(beta, value);\n            if beta <= alpha {", "            beta = min(beta, value);\n            if beta < alpha {", "violation", ["C08"]),
  ("benign-search-strict-cutoff-c07", "src/alpha_beta_searcher/mod.rs", "            beta = min(beta, value);\n            if beta <= alpha {", "            beta = min(beta, value);\n            if beta < alpha {", "ok", ["C07"]),
  ("benign-search-toggle-before-undo-c08", "src/alpha_beta_searcher/mod.rs", "            chess_move.undo(board).unwrap();\n            board.toggle_turn();\n\n            alpha = max(alpha, value);", "            board.toggle_turn();\n            chess_move.undo(board).unwrap();\n\n            alpha = max(alpha, value);", "ok", ["C08"]),
+ ("benign-extract-store-helper", "src/alpha_beta_searcher/mod.rs", [
+     ("        set_cache(context, search_node, value);\n        Ok(value)\n    } else {", "        store_result(context, search_node, value);\n        Ok(value)\n    } else {"),
+     ("fn set_cache(context: &mut SearchContext, search_node: SearchNode, score: i16) {", "fn store_result(context: &mut SearchContext, search_node: SearchNode, score: i16) {\n    set_cache(context, search_node, score);\n}\n\nfn set_cache(context: &mut SearchContext, search_node: SearchNode, score: i16) {"),
+   ], None, "ok", ["C08", "C07"]),
+ ("extract-store-helper-wrong-key", "src/alpha_beta_searcher/mod.rs", [
+     ("        set_cache(context, search_node, value);\n        Ok(value)\n    } else {", "        store_result(context, search_node, value);\n        Ok(value)\n    } else {"),
+     ("fn set_cache(context: &mut SearchContext, search_node: SearchNode, score: i16) {", "fn store_result(context: &mut SearchContext, search_node: SearchNode, score: i16) {\n    let (h, d, m, _, _) = search_node;\n    set_cache(context, (h, d, m, i16::MIN, i16::MAX), score);\n}\n\nfn set_cache(context: &mut SearchContext, search_node: SearchNode, score: i16) {"),
+   ], None, "violation", ["C08"]),
  # ---- the parallel perft entry point (C10, rule R20)
  ("perft-root-wrong-depth", "src/move_generator/mod.rs", "            let local_count = count_positions_inner(\n                depth - 1,", "            let local_count = count_positions_inner(\n                depth,", "violation", ["C10"]),
  ("perft-root-forgets-initial-count", "src/move_generator/mod.rs", "        initial_count + inner_counts.sum::<usize>()", "        inner_counts.sum::<usize>()", "violation", ["C10"]),
